@@ -28,8 +28,10 @@ Definition sp_default (p : param) : option value :=
   end.
 (* required iff no default *)
 Definition sp_required (p : param) : bool := match sp_default p with None => true | Some _ => false end.
-(* private parameters that have a default are not offered on the command line *)
-Definition sp_offered (p : param) : bool := sp_required p || negb (sp_private (p_name p)).
+(* every parameter is offered on the command line, except private ones (_x) that have a default in the
+   signature: those are left to that default ("Optional parameters without default become options") *)
+Definition sp_offered (p : param) : bool :=
+  negb (sp_private (p_name p)) || match p_default p with None => true | Some _ => false end.
 (* declared type; `x: T = None` declares Optional[T] *)
 Definition sp_ty (p : param) : ty :=
   match sp_default p with
